@@ -10,6 +10,8 @@ rm -rf "$WT"; mkdir -p /tmp/confirm
 git -C /repo worktree add -q --detach "$WT" HEAD || exit 2
 cleanup() { git -C /repo worktree remove --force "$WT" 2>/dev/null; rm -rf "$WT"; }
 trap cleanup EXIT
+# private temp dir: the suite uses fixed names under $TMPDIR, concurrent runs would collide
+export TMPDIR="$WT/.tmp"; mkdir -p "$TMPDIR"
 # install demo files (tests/ or examples/)
 if [ -d "$SRC/demo/tests" ]; then cp -r "$SRC/demo/tests/." "$WT/tests/"; fi
 if [ -d "$SRC/demo/examples" ]; then cp -r "$SRC/demo/examples/." "$WT/examples/"; fi
